@@ -38,6 +38,8 @@ def generate(ctx):
         else:
             d["trainable_feedback"] = rng.random() < 0.5
             d["transforms"] = rng.random() < 0.4
+            d["prefire_neurons"] = rng.random() < 0.5          # build the layer around neuron groups that just spiked
+            d["partial_clear_at"] = rng.choice([None, 2, 3, 4])  # clear(submodules=False) in the middle of the run
         yield d
 
 
@@ -105,6 +107,12 @@ class _Parts:
             fac.randomize(c, g, wscale=(5.0 if k in ("lateral", "feedback") else 1.5), delay_steps=desc["delay"], dt=dt)
         for n in list(self.conns.values()) + list(self.neurons.values()):
             n.train()
+        if desc.get("prefire_neurons"):
+            # the components have a past: every neuron group is driven to spike once before the layer is built
+            for n in self.neurons.values():
+                for _ in range(60):
+                    if bool(n(torch.full((B,) + tuple(n.shape), 400.0)).all()):
+                        break
 
 
 def _layer(desc, parts):
@@ -246,6 +254,11 @@ def run_case(ctx, desc):
         ctx.case(f"wiring/{tag}/{desc['neuron']}/{desc['syn']}/delay{desc['delay']}/cap{int(desc['capture'])}/B{desc['B']}")
         ctx.count("wiring_steps_checked")
         try:
+            if kind == "recurrent" and desc.get("partial_clear_at") == t:
+                # layer-level clear only: the stored feedback spikes are forgotten, the components keep their state
+                layer.clear(submodules=False)
+                hand.fb_spikes = None
+                ctx.count("partial_clears")
             outs, inter = _step_layer(desc, layer, x)
         except Exception as e:  # noqa: BLE001
             return ctx.violation(ctx.exc_signature(e, f"forward.{tag}"), f"{type(e).__name__}: {str(e)[:160]}", rdesc)
@@ -284,7 +297,7 @@ def run_case(ctx, desc):
             if not _same(before[k], after[k]):
                 return ctx.violation(f"{kind}.clear.changed_learned_state", f"clear() changed {k}", rdesc)
         # fresh copy carrying the learned parameters / adaptations
-        pF = _Parts(desc)
+        pF = _Parts({**desc, "prefire_neurons": False})   # freshly built: components without a past
         for k in pA.conns:
             fac.copy_params(pA.conns[k], pF.conns[k])
         for k in pA.neurons:
